@@ -1200,6 +1200,10 @@ func (m *Memberlist) readStream(conn net.Conn, streamLabel string) (messageType,
 			return 0, nil, nil, err
 		}
 
+		if len(plain) == 0 {
+			return 0, nil, nil, errors.New("decrypted message is empty")
+		}
+
 		// Reset message type and bufConn
 		msgType = messageType(plain[0])
 		bufConn = bytes.NewReader(plain[1:])
